@@ -72,8 +72,8 @@ theorem claim_pc {t : Thread} (hv : Valid t) :
     claimClosed sys 2 t = t ∨
     ((claimClosed sys 2 t).a = t.a ∧ (claimClosed sys 2 t).b = t.b ∧ (claimClosed sys 2 t).fn = t.fn ∧
       ((claimClosed sys 2 t).pc = 1 ∨ (claimClosed sys 2 t).pc = 4) ∧
-      ((t.pc = 0 ∧ (claimClosed sys 2 t).pc = 1) ∨ (t.pc = 2 ∧ (claimClosed sys 2 t).pc = 4) ∨
-       (t.pc = 3 ∧ (claimClosed sys 2 t).pc = 4))) := by
+      ((t.pc = 0 ∧ (claimClosed sys 2 t).pc = 1) ∨ (t.pc = 2 ∧ t.fn = 0 ∧ (claimClosed sys 2 t).pc = 4) ∨
+       (t.pc = 3 ∧ t.fn = 1 ∧ (claimClosed sys 2 t).pc = 4))) := by
   have h := claim_props hv
   by_cases hq : t.st = .parked
   · right
